@@ -85,21 +85,57 @@ def check_case(ctx, c, e):
                       f"{clause}: expected {want_}, observed {got}", {"kind": "degenerate_inverse_root", "clause": clause}, {"case": c})
 
 
+def tiny_epsilon(ctx, rng, count):
+    """epsilon > 0 far below the usual grid (down to the subnormal range of the dtype) on zero / tiny degenerate input: the result
+    eps^(-1/r) is representable for r >= 2 and must come out finite, symmetric, positive definite and bounded by it."""
+    from matrix_functions import matrix_inverse_root
+    for _ in range(count):
+        dt = rng.choice([torch.float32, torch.float64])
+        eps = rng.choice([1e-30, 1e-38, 1e-40, 3e-42] if dt == torch.float32 else [1e-200, 1e-300, 1e-310, 1e-318])
+        n = rng.choice([1, 2, 3, 5, 8])
+        root = rng.choice([Fraction(2), Fraction(4), Fraction(8), Fraction(3), Fraction(8, 3)])
+        kind = rng.choice(["zero", "rankdef", "negative"])
+        gen = torch.Generator().manual_seed(rng.randrange(1 << 30))
+        if kind == "zero":
+            A = torch.zeros(n, n, dtype=dt)
+        else:
+            A, _, _ = mp.build_matrix(mp.spectrum_class(rng, n, kind), eps * rng.choice([0.01, 1.0, 100.0]), n, gen, dt)
+        path = rng.choice(["eigen", "eigen_stab"])
+        ctx.add("evaluations")
+        X = matrix_inverse_root(A, root, mp.cfg_of(path), epsilon=eps)
+        case = {"tiny": True, "dtype": str(dt), "eps": eps, "n": n, "root": str(root), "kind": kind, "path": path}
+        eps_repr = float(torch.tensor(eps, dtype=dt))
+        ub = eps_repr ** (-1.0 / float(root))
+        probs = []
+        if not bool(torch.isfinite(X).all()):
+            probs.append(("finite", f"all entries finite (eps^(-1/r) = {ub:.3e} is representable)", "NaN/Inf"))
+        else:
+            ev = torch.linalg.eigvalsh(((X + X.T) / 2).to(F64)) if n > 1 else X.to(F64).reshape(-1)
+            if float(ev.min()) <= 0:
+                probs.append(("positive_definite", "lambda_min(X) > 0", f"{float(ev.min()):.3e}"))
+            if float(ev.max()) > ub * 1.01:
+                probs.append(("upper_bound", f"lambda_max(X) <= eps^(-1/r) = {ub:.6e}", f"{float(ev.max()):.6e}"))
+        for clause, want_, got in probs:
+            ctx.violation(f"eigen inverse root with tiny epsilon ({case}): {clause}: expected {want_}, observed {got}",
+                          {"kind": "degenerate_inverse_root", "clause": clause}, {"tiny": case})
+    ctx.put("tiny_epsilon_cases", count)
+
+
 def rejection(ctx):
     from matrix_functions import matrix_inverse_root
-    shapes = [(2, 3), (3, 2), (1, 2), (2, 1), (2,), (3,), (2, 2, 2), (1, 2, 2), (2, 2, 1), (1, 1, 2), (4, 1, 1, 1), (2, 3, 4)]
+    shapes = [(2, 3), (3, 2), (1, 2), (2, 1), (2,), (3,), (2, 2, 2), (1, 2, 2), (2, 2, 1), (1, 1, 2), (4, 1, 1, 1), (2, 3, 4), (4, 1), (1, 3, 3)]
     for shp in shapes:
-        for cfgname in ("eigen", "eigen_stab", "newton", "higher"):
+        for cfgname, isdiag in [(c_, d_) for c_ in ("eigen", "eigen_stab", "newton", "higher") for d_ in (False, True)]:
             ctx.add("evaluations")
             try:
-                matrix_inverse_root(torch.ones(shp), Fraction(2), mp.cfg_of(cfgname), epsilon=0.1)
+                matrix_inverse_root(torch.ones(shp), Fraction(2), mp.cfg_of(cfgname), epsilon=0.1, is_diagonal=isdiag)
                 out = "returned"
             except ValueError:
                 out = "ValueError"
             except Exception as ex:  # noqa
                 out = type(ex).__name__
             if out != "ValueError":
-                ctx.violation(f"matrix_inverse_root accepted / mis-rejected shape {shp} ({cfgname}): {out}", {"kind": "shape_rejection", "observed": out}, {"shape": list(shp)})
+                ctx.violation(f"matrix_inverse_root accepted / mis-rejected shape {shp} ({cfgname}, is_diagonal={isdiag}): {out}", {"kind": "shape_rejection", "observed": out}, {"shape": list(shp)})
     ctx.put("rejected_shapes", [list(s) for s in shapes])
 
 
@@ -117,20 +153,24 @@ def run(ctx):
         check_case(ctx, c, e)
         ctx.add("evaluations")
         classes.add((c["kind"], c["dtype"], c["path"], c["n"] > 8, c["scale"]))
+    tiny_epsilon(ctx, rng, 120 if quick else 2000)
     ctx.put("distinct_nontrivial", len(classes))
     ctx.put("rule", "MC: EigenPositivity / UpperBound by order reasoning on the transfer functions for every rational spectrum of a grid that "
                     "includes negative, zero and repeated eigenvalues; rejection table; O: concretised matrices n<=64 (32 quick), float32/64, "
                     "spectra with slightly negative / zero / rank-deficient / graded eigenvalues, scales 1e-6..1e6, roots incl. fractional: result "
                     "finite, symmetric, positive definite, lambda_max <= eps^(-1/r), commutes with the input, orthogonally equivariant, and "
                     "equal to Q diag(Reg^(-1/r)) Q^T with Reg from the spec; every non-square / non-2-D shape with more than one element raises "
-                    "ValueError; distinct = (spectrum class, dtype, path, n>8, scale)")
+                    "ValueError, with and without the diagonal flag; epsilon down to the subnormal range on zero / tiny degenerate input (roots >= 2): "
+                    "finite, positive definite, bounded; distinct = (spectrum class, dtype, path, n>8, scale)")
     ctx.sample({"case": {k: cases[0][k] for k in ("path", "kind", "n", "dtype", "scale", "root", "eps", "spec")}, "regularised": exp[0]["reg"]})
     ctx.assume("epsilon is not below the dtype resolution of the scale (the property's precondition)")
 
 
 def replay(ctx, data):
     r = data["replay"]
-    if "case" in r:
+    if "tiny" in r:
+        tiny_epsilon(ctx, random.Random(ctx.seed * 7919 + 11), 400)
+    elif "case" in r:
         e = mp.oracle_eval([r["case"]], "C11-rep")[0]
         check_case(ctx, r["case"], e)
         ctx.add("evaluations")
